@@ -107,7 +107,8 @@ def target_problems(terms, allowed_params, allowed_attrs):
                     walk(a, under_base)
                     walk(b, under_base)
             elif k in ("sub",):
-                walk(t[1], under_base)
+                tail = any(i == ("const", 1) for i in t[2]) and all(b[0] == "ext" and b[1] == "os.path.split" for b in t[1]) and t[1]
+                walk(t[1], under_base or bool(tail))
             elif k in ("elem", "added"):
                 walk(t[1], under_base)
             elif k in ("kelem", "inloop"):
